@@ -258,7 +258,7 @@ func buildInventory() (*inventory, error) {
 		}
 		structural := []string{}
 		for _, n := range []string{"verif_ngram_1", "verif_ngram_3", "verif_edge_ngram_1", "verif_edge_ngram_2", "verif_shingle_1", "verif_shingle_2", "camelCase", "verif_dict_compound_1",
-			"verif_truncate_token_0", "verif_length_2", "reverse", "unique", "cjk_bigram", "cjk_width", "verif_hierarchy_0", "elision_fr", "apostrophe", "verif_normalize_unicode_1", "verif_stop_tokens_0"} {
+			"verif_truncate_token_0", "verif_length_2", "reverse", "unique", "cjk_bigram", "cjk_width", "verif_hierarchy_1", "elision_fr", "apostrophe", "verif_normalize_unicode_1", "verif_stop_tokens_0"} {
 			if _, ok := filters[n]; ok {
 				structural = append(structural, n)
 			}
